@@ -190,7 +190,7 @@ Proof.
     split; [cbn; rewrite chk_in; lia|].
     left. split; auto. exists i. rewrite HL. split; auto. split.
     + destruct k; auto; cbn [key_hash]; cbn; rewrite nth_firstn_lt by lia; now rewrite Hk.
-    + unfold abs, with_mem in *; cbn in *. all: try (injection A as A1 A2 A3 A4; rewrite A2, A3, A4, M, N1; f_equal; apply firstn_upd_lt; lia).
+    + unfold abs, with_mem in *; cbn in *. all: try (injection A as A0 A1 A2 A3 A4; rewrite A0, A2, A3, A4, M, N1; f_equal; apply firstn_upd_lt; lia).
   - inversion H; subst; clear H. split; auto.
   - inversion H; subst; clear H. split; auto.
 Qed.
